@@ -23,7 +23,7 @@ use std::{
     collections::HashMap,
     sync::{Arc, RwLock},
 };
-use tracing::{debug, info};
+use tracing::{debug, error, info};
 
 #[derive(Clone)]
 pub struct Task {
@@ -608,7 +608,7 @@ impl Task {
         Ok(())
     }
 
-    pub fn is_ready(&self) -> bool {
+    pub fn is_ready(self: &Arc<Self>) -> bool {
         match &self.node.content {
             NodeContent::Branch(n) => {
                 let siblings = self.siblings();
@@ -639,6 +639,11 @@ impl Task {
                             || iter.state().is_abort()
                     }) {
                         self.set_state(TaskState::Skipped);
+                        // the branch was decided here, not by an action: store it
+                        self.runtime
+                            .cache()
+                            .upsert(self)
+                            .unwrap_or_else(|err| error!("is_ready upsert={}", err));
                     }
                 }
 
